@@ -1,13 +1,35 @@
 """C03 — every mutation is validated and failure-atomic.
 
 Proof obligations: Props/C03.v (characterisation parametric in the GENERATED mutator tables, history
-theorem by induction, witnesses for every unsafe shape, refutation of the full statement).
-Tie to the code: Gen/Tables.v is regenerated from collections_impl.py + CPython on every run; the model's
-`mstep` (Struct/Instance.v) is compared step by step, inside Coq, with what the real library did on generated
-histories.  Violation search: the statement's clauses evaluated on the implementation's observed behaviour —
-atomicity on an observable snapshot (field reads, ==, str, serialization) in Python, validity of the
-reified state (`state_ok_dom`, i.e. struct_ok on the stated domain) in Coq — plus, for every table entry
-that is not safe NOW, a directed replay of the witness construction on the real wrapper."""
+theorem by induction, refinement of the statement-level wrapper model to the coarse step, witnesses for every
+unsafe shape, refutation of the full statement).
+Tie to the code: Gen/Tables.v (which mutators exist / are overridden) and Gen/WrapBodies.v (every overriding
+method transliterated statement by statement; classified in Coq) are regenerated from collections_impl.py + CPython
+on every run; the model's `mstep` (Struct/Instance.v) is compared step by step, inside Coq, with what the real
+library did on generated histories.  Violation search: the statement's clauses evaluated on the implementation's
+observed behaviour — atomicity on an observable snapshot (field reads, ==, str, serialization) and the exception
+class in Python, validity of the reified state (`state_ok_dom`, i.e. struct_ok on the stated domain) in Coq.
+
+Streams (all end in the same judgement):
+  history                  random classes (typed Array/Deque/Map fields, hooks, immutables, subclasses), start instance
+                           from the constructor / deepcopy / pickle / shallow_clone, 2..8 (40) operations drawn from ALL
+                           introspected mutators with positional, keyword, slice, one-shot-iterator, failing-iterator and
+                           key-function arguments, `x.f += v` statement forms, setattr valid/invalid/None/equal-but-other-type,
+                           del; handles re-read or re-used; one corrupted call per typed container at the end
+  directed:table-entry     witness family per table entry (unsafe entries must yield a concrete failing input)
+  directed:lookalike       ENUMERATED: every numeric/bool leaf (dict keys included) of every stored value replaced by a value
+                           of another type Python's == cannot tell from it, through every entry point
+  directed:value-lattice   ENUMERATED: a value lattice over scalar / AllOf / AnyOf / OneOf / NotField fields, alone and as
+                           items of typed containers
+  directed:nonatomic-base  calls on which the base type's own method is not failure-atomic (list.sort with a comparison
+                           that fails after moves; extend / update from an iterator that fails after valid items)
+  directed:field-classes   EVERY exported Field class: assignment of a rejected value over an accepted one
+  directed:container-hook  a __validate__ that reads container sizes: the field stays validated after a hook failure
+  directed:hooks / extfields / nested   the known defects F4, F5, del bypassing the hook
+Known false alarms met while building (and how they were repaired) are recorded in DESIGN.md 12.3; two met in round 3:
+a directed call that stored a slice / generator object as an ELEMENT (not reifiable: such calls are skipped), and a
+Decimal look-alike of 1e300 that does not survive Decimal(...).scaleb under the default context (candidates must
+round-trip through the reifier)."""
 import collections
 import inspect
 import json
@@ -2053,8 +2075,11 @@ def run(rep, tier):
         from harness.props.c17 import broken_build
         broken_build(rep)
     return rep.finish(
-        rule="histories on valid instances of generated classes (typed Array/Deque/Map fields, hooks, immutables): "
-             "ops drawn from ALL introspected list/deque/dict mutators with valid/invalid arguments, setattr "
-             "valid/invalid/None, del x[name], nested-container mutators; handle modes re-read and re-use; plus directed "
-             "witness replays for every table entry, hooks, DateString/TimeString, nested containers; "
-             "distinct = distinct (operation kind.method, outcome class, state changed); all non-trivial")
+        rule="histories on valid instances (from the constructor, deepcopy, pickle, shallow_clone) of generated classes "
+             "(typed Array/Deque/Map fields, hooks, immutables, subclasses): ops drawn from ALL introspected list/deque/dict "
+             "mutators with valid/invalid positional, keyword, slice, iterator, failing-iterator and key-function arguments, "
+             "`x.f += v` forms, setattr valid/invalid/None/equal-but-differently-typed, del x[name], nested-container "
+             "mutators; handle modes re-read and re-use; plus enumerated streams (look-alike values through every entry "
+             "point, value lattice over multi-field wrappers, non-atomic base methods, every exported Field class, a hook "
+             "over container sizes) and directed witness replays for every table entry, hooks, nested containers; "
+             "distinct = distinct (operation kind.method + argument forms, outcome class, state changed); all non-trivial")
